@@ -282,7 +282,7 @@ FreeByOverride(ob, o, ovr) ==
 (* All C18 clauses about one copy step, on observations; returns the name  *)
 (* of the first failing clause or "ok".                                    *)
 (***************************************************************************)
-CopyClause(pre, post, o, ren, ovr) ==
+CopyClause(pre, post, o, ren, ovr, free) ==
     LET c == ren[o]
         fc == CopyForestClause(pre, post, o, ren)
     IN IF fc # "ok" THEN fc
@@ -290,7 +290,25 @@ CopyClause(pre, post, o, ren, ovr) ==
        ELSE IF Shared(post, o, c) # {} THEN "NoSharing"
        ELSE IF ~CopyCellsPrivate(post, c) THEN "CopyCellsPrivate"
        ELSE IF ~OriginalUntouched(pre, post) THEN "OriginalUntouched"
-       ELSE IF ~EqualProjection(pre, post, o, ren, FreeByOverride(pre, o, ovr)) THEN "EqualProjection"
+       ELSE IF ~EqualProjection(pre, post, o, ren, free) THEN "EqualProjection"
        ELSE IF ~OverridesApplied(post, c, [a \in DOMAIN ovr \ {"label"} |-> ovr[a]]) THEN "OverridesOnlyCopy"
        ELSE "ok"
+
+(***************************************************************************)
+(* The label rule on real labels (utility.add_iteration_suffix), on the    *)
+(* decomposition  label = stem \o <decimal num padded to width>  with      *)
+(* width = 0 when the label does not end with a digit; `us`: the label     *)
+(* ends with an underscore; `none`: the label is None.  Iter above is its  *)
+(* abstraction.  Not stated by property C18 beyond "automatically          *)
+(* iterated": judged as conformance only.                                  *)
+(***************************************************************************)
+Pow10(n) == IF n <= 0 THEN 1 ELSE IF n = 1 THEN 10 ELSE IF n = 2 THEN 100 ELSE IF n = 3 THEN 1000 ELSE IF n = 4 THEN 10000
+            ELSE IF n = 5 THEN 100000 ELSE IF n = 6 THEN 1000000 ELSE IF n = 7 THEN 10000000 ELSE 100000000
+LabelIterOK(lo, lc, sty, cls) ==
+    IF sty = "none" THEN lc.none                           \* no style, nothing to iterate
+    ELSE IF lo.none THEN ~lc.none /\ lc.text = cls \o "_01"
+    ELSE IF lo.width = 0
+         THEN ~lc.none /\ lc.num = 1 /\ lc.width = 2 /\ lc.stem = (IF lo.us THEN lo.stem ELSE lo.stem \o "_")
+         ELSE ~lc.none /\ lc.stem = lo.stem /\ lc.num = lo.num + 1
+              /\ lc.width = (IF lo.num + 1 >= Pow10(lo.width) THEN lo.width + 1 ELSE lo.width)
 =============================================================================
